@@ -75,6 +75,7 @@ type c07aScenario struct {
 	in, out   *simBot
 	c         map[string]*c07aConn // "in", "out"
 	AdminDown bool
+	Deleted   bool
 	Routes    int
 	pruned    bool
 	// dial seam
@@ -160,7 +161,7 @@ func (sc *c07aScenario) anyEstablished() string {
 }
 
 func (sc *c07aScenario) Enabled(w *simWorld) []simEvent {
-	if sc.pruned {
+	if sc.pruned || sc.Deleted {
 		return nil
 	}
 	var ev []simEvent
@@ -199,6 +200,7 @@ func (sc *c07aScenario) Enabled(w *simWorld) []simEvent {
 	} else {
 		add("disable")
 	}
+	add("delete")
 	return ev
 }
 
@@ -305,6 +307,19 @@ func (sc *c07aScenario) Apply(w *simWorld, e simEvent) {
 			if sc.c[n].St != "" {
 				// RFC 4271 8.2.2: ManualStop in OpenSent / OpenConfirm / Established sends a Cease
 				sc.fail(n, "NOTIF 6/2")
+			}
+		}
+	case e.Op == "delete":
+		w.must(w.s.DeletePeer(context.Background(), &api.DeletePeerRequest{Address: sc.in.addr().String()}))
+		sc.Deleted = true
+		for _, n := range []string{"in", "out"} {
+			switch sc.c[n].St {
+			case "established":
+				sc.fail(n, "NOTIF 6/3") // RFC 4486: Peer De-configured
+			case "opensent", "openconfirm":
+				// de-configuration is not an event of the RFC 4271 FSM; as in part sim only the closing
+				// of the connection is required before Established
+				sc.fail(n, "")
 			}
 		}
 	case e.Op == "enable":
@@ -525,6 +540,26 @@ func (sc *c07aScenario) Check(w *simWorld, last *simEvent) {
 	}
 	ev := last.Op
 	p := w.peer(sc.in)
+	if sc.Deleted {
+		w.stat("act-ev-" + ev)
+		if p != nil {
+			w.violate("C07:active:deleted-peer-still-present", "peer still configured after DeletePeer")
+		}
+		for _, n := range []string{"in", "out"} {
+			c := sc.c[n]
+			got := sc.got(n)
+			if fmt.Sprint(got) != fmt.Sprint(c.exp) {
+				w.violate(fmt.Sprintf("C07:active:messages:delete:conn=%s:want=%v:got=%v", n, c.exp, got), "DeletePeer: on the %s connection the reference expects %v, the daemon emitted %v", n, c.exp, got)
+			}
+			if sc.bot(n).connected() {
+				w.violate("C07:active:connection-kept:delete:conn="+n, "DeletePeer left the %s connection open", n)
+			}
+		}
+		if sc.pending != nil && !sc.pending.finished {
+			w.violate("C07:active:dial-pending-after-delete", "a dial is still pending after DeletePeer")
+		}
+		return
+	}
 	if p == nil {
 		w.violate("C07:active:peer-vanished", "peer vanished")
 		sc.pruned = true
@@ -647,6 +682,9 @@ func (sc *c07aScenario) Key(w *simWorld) string {
 	if p != nil && p.fsm.outgoingConnMgr != nil {
 		ocm = fmt.Sprintf("%v/%v", p.fsm.outgoingConnMgr.state.Load(), p.fsm.outgoingConnMgr.ctx.Err() != nil)
 	}
+	if sc.Deleted {
+		return "deleted|" + w.stateKey()
+	}
 	return fmt.Sprintf("in=%+v out=%+v admin=%v routes=%d pruned=%v dial=%v/%v/%v ocm=%s conn=%v/%v|%s", *sc.c["in"], *sc.c["out"], sc.AdminDown, sc.Routes, sc.pruned,
 		pend, age(sc.lastDialAt), age(sc.lastEndAt), ocm, sc.in.connected(), sc.out.connected(), w.stateKey())
 }
@@ -654,7 +692,7 @@ func (sc *c07aScenario) Key(w *simWorld) string {
 func TestVerif_C07_Active(t *testing.T) {
 	r := vr.Start(t, "C07", "active")
 	defer r.Finish()
-	r.Rule = "explicit-state BFS over event histories {outbound dial completes / is refused / times out, inbound connect, on either connection: OPEN valid / bad AS, KEEPALIVE, UPDATE, NOTIFICATION, remote close; wait 1 s / 30 s / exactly to the next hold or keepalive deadline; disable, enable} on an ACTIVE peer of the real daemon in virtual time, remote BGP Identifier {lower, higher} than the daemon's, in lock-step with one reference RFC 4271 FSM per connection joined by the collision rule of section 6.8; non-trivial = distinct (reference state, daemon state) pair"
+	r.Rule = "explicit-state BFS over event histories {outbound dial completes / is refused / times out, inbound connect, on either connection: OPEN valid / bad AS, KEEPALIVE, UPDATE, NOTIFICATION, remote close; wait 1 s / 30 s / exactly to the next hold or keepalive deadline; disable, enable, delete peer} on an ACTIVE peer of the real daemon in virtual time, remote BGP Identifier {lower, higher} than the daemon's, in lock-step with one reference RFC 4271 FSM per connection joined by the collision rule of section 6.8; non-trivial = distinct (reference state, daemon state) pair"
 	r.Assumptions = append(r.Assumptions, "build-time dial seam: the daemon's net.Dialer.DialContext call and the connect-retry jitter go through hook variables (jitter factor fixed at 1.0)",
 		"hold 9 s, keepalive 4 s, connect-retry 6 s; where the RFC leaves a choice (tracking or refusing a second connection before OpenConfirm, Idle vs Active without a connection, when exactly to dial) every permitted behaviour is accepted")
 	if r.ReplayPath() != "" {
